@@ -72,6 +72,7 @@ fn main() {
     }
     "calib" => props_sched::calib(),
     "calibw" => props_sched::calibw(),
+    "calibp" => props_sched::calibp(),
     "c13-files-child" => props_hist::c13_files_child(),
     "c04-child" => props_c04::child(if args[2] == "thorough" { Tier::Thorough } else { Tier::Quick }, &args[3], &args[4], args[5].parse().unwrap(), args[6].parse().unwrap()),
     "replay" => {
